@@ -147,6 +147,13 @@ func rulesC14(w *World, r *Report) {
 			}
 			S, _ := f.Eval(t, env)
 			ok := S != nil && !S.Empty() && S.SubsetOf(mkSet(0, allocCap))
+			if !ok {
+				// the size may come back from a helper inside a struct: path-level look
+				if okP, factP := w.pxAllocBound(fn, in, size); okP {
+					r.add("C14.R2 allocation sizes are bounded", key, w.instrPos(in), true, factP)
+					return
+				}
+			}
 			r.add("C14.R2 allocation sizes are bounded", key, w.instrPos(in), ok,
 				fmt.Sprintf("size %s ∈ %s (required ⊆ [0,%d]: an allocation driven by a length merely declared in the input is unbounded)", t.Key(), S, allocCap))
 		}
@@ -328,7 +335,15 @@ func (w *World) ruleStreamLoops(r *Report, rule string, reach map[*ssa.Function]
 		}
 		sc := c.Call.StaticCallee()
 		if sc == nil {
-			return false
+			// an element source handed in as a function value (`p.read()`, `next()`):
+			// a consuming read when every function it can denote consumes
+			cs := w.calleesOf(c)
+			for _, cal := range cs {
+				if !consumers[cal] && !consumers[w.throughWrapper(cal)] {
+					return false
+				}
+			}
+			return len(cs) > 0
 		}
 		if qualifiedFnName(sc) == "io.ReadFull" {
 			return true
@@ -336,6 +351,18 @@ func (w *World) ruleStreamLoops(r *Report, rule string, reach map[*ssa.Function]
 		return consumers[sc]
 	}
 	n := 0
+	// floor: the functions whose stream loop was examined — the function holding
+	// the loop and, for a loop shared through a helper, the container readers that
+	// delegate to it
+	served := map[*ssa.Function]bool{}
+	delegates := map[*ssa.Function]map[*ssa.Function]bool{}
+	if reg := w.decRegistrar(); reg != nil {
+		for _, f := range w.SrcFuncs() {
+			if f != reg && len(callsTo(f, reg)) > 0 {
+				delegates[f] = w.readerDelegates(fnName(f))
+			}
+		}
+	}
 	for _, fn := range w.SrcFuncs() {
 		if !reach[fn] {
 			continue
@@ -358,6 +385,12 @@ func (w *World) ruleStreamLoops(r *Report, rule string, reach map[*ssa.Function]
 				continue // not a stream loop (bounded by in-memory structure)
 			}
 			n++
+			served[fn] = true
+			for rdr, del := range delegates {
+				if del[fn] {
+					served[rdr] = true
+				}
+			}
 			var latches []*ssa.BasicBlock
 			for _, p := range lp.header.Preds {
 				if lp.body[p] && lp.header.Dominates(p) {
@@ -421,7 +454,8 @@ func (w *World) ruleStreamLoops(r *Report, rule string, reach map[*ssa.Function]
 			r.add(rule, fmt.Sprintf("%s · loop#%d", fnName(fn), li+1), w.pos(fn.Pos()), ok, fact)
 		}
 	}
-	r.floor(rule, n, 8)
+	_ = n
+	r.floor(rule, len(served), 8)
 }
 
 // ---- C16 ----
